@@ -91,7 +91,7 @@ fn gen_shape(rng : &mut Rng, flavor : Flavor, max_rules : usize) -> Scenario
         {
             let i = rng.below(n);
             let t0 = rules[i].targets[0].clone();
-            rules[i].script = match rng.below(3) { 0 => vec![format!("true {}", t0), "fail".to_string()], 1 => vec![format!("true {}", t0)], _ => vec![format!("gen {} @no-such-file", t0)] };
+            rules[i].script = match rng.below(4) { 0 => vec![format!("true {}", t0), "fail".to_string()], 1 => vec![format!("true {}", t0)], 2 => { let mut v = vec!["fail".to_string()]; v.extend(rules[i].script.clone()); v }, _ => vec![format!("gen {} @no-such-file", t0)] };
         }
     }
     rng.shuffle(&mut rules);
